@@ -14,7 +14,7 @@ def check(run):
     import vlib
     rtraces = run.drive('TestDriveC05Run', 16, lambda i: dict(VERIF_SEED=run.seed * 1000 + 700 + i, VERIF_N=run.pick(4, 60)), 'c05run',
                         timeout=3000)
-    rc = vlib.cfg(invariants=['Report', 'C05_UndoneRun'], post='TraceAccepted')
+    rc = vlib.cfg(invariants=['Report', 'C05_UndoneRun', 'C05_CountedRun'], post='TraceAccepted')
     run.validate('Monitor_Interf', rc, rtraces, 'moninterf')
     run.cov['run_mode_third_party_writes'] = ctlfam.count_events(rtraces, lambda ln: '"ev":"Poke3"' in ln)
     pokes = ctlfam.count_events(traces, lambda ln: '"ev":"Poke"' in ln)
